@@ -7,3 +7,19 @@ add("C02", "exploration", "round-trip monitor with independent layout walker, JS
     "Runs the real JSON/YAML writers and readers (string, file and dictionary entry points, strict and lenient) on generated documents; an exact item-by-item model diff, a layout walk of the re-parsed text and of DictWriter.to_dict's result against an independent 1.1 key table, a direct JSON-vs-YAML comparison and foreign-emitted dictionaries decide. Held = no observed execution violated a clause.",
     "Trusts plain json / PyYAML safe_load as independent parsers; agreement with XML follows by transitivity from C01; locale variation of the text-mode open is not explored.",
     "DESIGN.md §5 C02")
+add("C03", "exploration", "invariant-at-a-hook: whole-universe tree invariants and budgeted queries after every call of generated editing histories",
+    "A directed deck covers every (operation x argument pre-state) cell and seeded random histories (5-40 public calls, tiny name alphabet, 1-2 documents) explore combinations; after every call the monitor walks every live object (private fields) and checks exactly-once containment, parent agreement, acyclicity, document == chain root, and drives get_path/document/itersections/iterproperties under a logical step budget. Held = the invariant was never observed broken on the executions produced.",
+    "The driver is the only client, so its call boundary is the quiescent point; objects unreachable from the pool are not observed; op catalogue in vlib/hist.py.",
+    "DESIGN.md §5 C03/C04")
+add("C04", "exploration", "invariant-at-a-hook: sibling-name uniqueness, name/id well-formedness and per-operation id/name post-conditions over generated histories",
+    "Same histories as C03 (names from a 3-letter alphabet so clashes are the norm; ids valid, upper-case, braced, truncated, garbage); after every call: no duplicate sibling names in any live container, names non-empty strings, ids canonical; post-conditions for constructors with malformed ids, new_id, rename to None/''.",
+    "As C03. Names given to the API are strings (renaming to non-strings is outside the quantifier).",
+    "DESIGN.md §5 C03/C04")
+add("C05", "exploration", "invariant-at-a-hook on every Property: dtype validity, per-value type conformance, refusal type/atomicity, normal-form and text round-trip checks over an exhaustive single-operation deck and random value histories",
+    "Enumerates every dtype x every pooled value (native, text form, near miss, empty, mixed, bracketed, tuple syntax) x every value operation x strict on/off, every dtype change and every dtype x dtype merge, then random value-edit histories; after each call the monitor checks every stored value against its dtype, that refusals are ValueError and change neither dtype nor values, that own values are re-assignable and that value -> text -> value is the identity.",
+    "dtype inputs: canonical names, DType members, the documented aliases str/bool and invalid names; case variants such as 'Int' are outside the quantifier (observed: they are accepted and leave values untyped).",
+    "DESIGN.md §5 C05")
+add("C06", "fault_enumeration", "snapshot-before / compare-after monitor on every raising public call over an enumeration of (operation x failure cause) plus failure-heavy random histories",
+    "Every editing operation, constructor and value operation is invoked in each pre-state that makes it fail (clash, wrong type, invalid cardinality, unconvertible value, duplicate inside an extend argument, unresolvable link, malformed id, invalid date, cycle); whenever a call exits by exception the identity-based snapshot of every live object taken at entry is compared with the state at exit.",
+    "Snapshot covers child lists, parent, name, id, attributes, dtype, values (and identity of the value list), cardinalities, link/include, merge partner of every object reachable from the pool.",
+    "DESIGN.md §5 C06")
